@@ -104,9 +104,12 @@ def tty_engine(run, tier, seed):
                                "case_text": "", "expected": None, "actual": None, "step": False})
         return
     n = 300 if tier == "thorough" else 40
-    for name, sd, extra in (("narrow", seed, []), ("wide", seed + 1, ["-wide"])):
+    for name, sd, extra in (("narrow", seed, []), ("wide", seed + 1, ["-wide"]), ("grapheme", seed + 2, ["-wide", "-comb"])):
         cases, real = os.path.join(out, "c_%s.txt" % name), os.path.join(out, "r_%s.txt" % name)
-        p = subprocess.run([os.path.join(out, "hm"), "-n", str(n), "-seed", str(sd), "-mode", "0", "-cases", cases, "-real", real] + extra,
+        # the third run is in grapheme mode with marks, joiners and selectors merged late into narrow and wide
+        # characters: end-to-end predicate only (the model frontend is not run on it)
+        p = subprocess.run([os.path.join(out, "hm"), "-n", str(n), "-seed", str(sd), "-mode", "1" if name == "grapheme" else "0",
+                            "-cases", cases, "-real", real] + extra,
                            stdout=subprocess.PIPE, stderr=subprocess.STDOUT, timeout=1200)
         text = p.stdout.decode("utf8", "replace")
         if p.returncode != 0:
@@ -134,6 +137,9 @@ def tty_engine(run, tier, seed):
                 if int(m.group(4)):
                     run.violations.append({"kind": "predicate", "what": "TTY mirror (%s, %s): %s steps where the frontend changed outer cells outside the attach region" % (kind, name, m.group(4)),
                                            "case": "tty:%s:%s" % (name, kind), "op": None, "case_text": "", "expected": None, "actual": line, "step": False})
+            m = re.search(r"grapheme pieces .*: inside=(\d+) outside=(\d+)", line)
+            if m:
+                run.known_hits["KF-C11-grapheme-pieces"] += int(m.group(1)) + int(m.group(2))
             m = re.search(r"attach region empty after clamping=(\d+)", line)
             if m:
                 run.known_hits["tty-empty-attach-region"] += int(m.group(1))
@@ -146,6 +152,8 @@ def tty_engine(run, tier, seed):
                 run.violations.append({"kind": "predicate", "what": "TTY frontend (%s, %s) wrote bytes while detached in %d of %s detached steps (only a show-cursor at Detach is allowed)" % (
                     kind, name, int(m.group(1)) - int(m.group(2)), m.group(1)), "case": "tty:%s:%s" % (name, kind), "op": None, "case_text": "",
                     "expected": None, "actual": line, "step": False})
+        if name == "grapheme":
+            continue
         # model frontend (repaired code, rp=1) fed with the real callbacks: bytes per step, verbatim
         mp = subprocess.run([os.path.join(out, "drv"), "1", "1"], stdin=open(cases), stdout=subprocess.PIPE, timeout=1800)
         rl = [l for l in open(real).read().splitlines() if l.startswith("200") or l.startswith("#")]
